@@ -22,21 +22,21 @@ Local Open Scope Z_scope.
 (* no frame is handed back twice, for every schedule and every fault history *)
 Theorem C12_at_most_once : forall cap ls s,
   run false (init cap) ls = Some s -> released_at_most_once (history s).
-Proof. intros cap ls s H. exact (proj1 (safety cap ls s H)). Qed.
+Proof. exact at_most_once_thm. Qed.
 Print Assumptions C12_at_most_once.
 
 (* after a frame was handed back no later event concerns it: no access at any of the
    modelled access sites, no hand-over to another goroutine, no second release *)
 Theorem C12_no_use_after_release : forall cap ls s,
   run false (init cap) ls = Some s -> no_use_after_release (history s).
-Proof. intros cap ls s H. exact (proj1 (proj2 (safety cap ls s H))). Qed.
+Proof. exact no_use_after_release_thm. Qed.
 Print Assumptions C12_no_use_after_release.
 
 (* only frames that came out of the pool are released or touched, and the pool never sees
    the same frame obtained twice *)
 Theorem C12_only_pool_frames : forall cap ls s,
   run false (init cap) ls = Some s -> only_pool_frames (history s).
-Proof. intros cap ls s H. exact (proj2 (proj2 (safety cap ls s H))). Qed.
+Proof. exact only_pool_frames_thm. Qed.
 Print Assumptions C12_only_pool_frames.
 
 (* Completeness.  [run_noloss] = runs none of whose steps is one of the enumerated
@@ -60,7 +60,7 @@ Print Assumptions C12_faultfree_all_released.
 
 (* such runs are runs: the safety theorems apply to them *)
 Theorem C12_noloss_is_run : forall cap ls s, run_noloss (init cap) ls = Some s -> run false (init cap) ls = Some s.
-Proof. intros cap ls s. exact (run_noloss_run ls (init cap) s). Qed.
+Proof. exact noloss_is_run_thm. Qed.
 Print Assumptions C12_noloss_is_run.
 
 (* Tie to the source: the model's site table is exactly the list of FramePool.Get/Release
@@ -73,7 +73,7 @@ Print Assumptions C12_sites_generated.
 (* and every Get/Release event the model can produce names a site of that table *)
 Theorem C12_sites_known : forall cap ls s,
   run false (init cap) ls = Some s -> Forall site_known (s_trace s).
-Proof. intros cap ls s H. exact (run_sites ls (init cap) s H (Forall_nil _)). Qed.
+Proof. exact sites_known_thm. Qed.
 Print Assumptions C12_sites_known.
 
 (* The pinned tree (dispatchInbound releasing its frame parameter when readMethod fails)
